@@ -150,6 +150,9 @@ pub struct World {
     pub t0: Option<tokio::time::Instant>,
     /// (is_h2, conn): HTTP/1 hand-backs and HTTP/2 registrations of the current step, in order
     pub reg_events: Vec<(bool, usize)>,
+    /// the connection type reports `is_open()` while an exchange is in flight (the trait only says
+    /// "the connection is open"; hyperdriver's own HttpConnection answers with its readiness)
+    pub open_while_busy: bool,
 }
 
 impl World {
@@ -191,7 +194,7 @@ impl World {
     }
     pub fn conn_is_open(&self, c: usize) -> bool {
         let c = &self.conns[c];
-        c.open && !c.upgraded && (c.h2 || !c.busy)
+        c.open && !c.upgraded && (c.h2 || !c.busy || self.open_while_busy)
     }
 }
 
